@@ -461,8 +461,18 @@ def rule_amount_precision(ctx: Ctx, rep: Report) -> None:
                         n += 1
                         ok = isinstance(v, int) and v >= need
                         rep.ob(rule, f"{fi.qualname}:prec", ok, fi.where(a), f"precision {v}" if ok else f"`{norm(a)[:60]}`: MAX_MONEY has {need} digits")
+    # the module's own context constants (`_CONTEXT = Context(prec=...)`)
+    for st in mi.tree.body:
+        if isinstance(st, ast.Assign) and isinstance(st.value, ast.Call) and call_name(st.value) == "Context":
+            for k in st.value.keywords:
+                if k.arg == "prec":
+                    v = ctx.fold(k.value, mi)
+                    n += 1
+                    ok = isinstance(v, int) and v >= need
+                    rep.ob(rule, f"btclib.amount.{norm(st.targets[0])}:prec", ok, f"btclib/amount.py:{st.lineno}", f"precision {v} holds the {need} digits of MAX_MONEY" if ok else
+                           f"`{norm(st)[:60]}`: MAX_MONEY has {need} digits; amounts above 10^{v} satoshi are rounded by the conversion")
     rep.ob(rule, "scanned", True, "btclib/amount.py:1", f"{n} precisions set in btclib.amount; {need} digits needed")
-    rep.floor(rule, 1)
+    rep.floor(rule, 2)
 
 
 def rule_ctor_copies_containers_(ctx: Ctx, rep: Report) -> None:
@@ -546,9 +556,8 @@ RULES = [
 ]
 
 CONTROLS = [
-    {"rule": "C18.amount_precision", "name": "btc_from_sats pins fifteen digits", "module": "btclib.amount",
-     "edit": lambda ctx: M.sub_expr(ctx, "btclib.amount.btc_from_sats", lambda n: isinstance(n, ast.Assign) and "traps" in norm(n.targets[0]),
-                                    lambda n: norm(n) + "\n        " + norm(n.targets[0]).split(".")[0] + ".prec = 15")},
+    {"rule": "C18.amount_precision", "name": "the module's context pins fifteen digits", "module": "btclib.amount",
+     "edit": lambda ctx: M.sub_module_expr(ctx, "btclib.amount", lambda n: isinstance(n, ast.keyword) and n.arg == "prec" and isinstance(n.value, ast.Constant), "prec=15")},
     {"rule": "C18.multisig_m", "name": "m read off the low four bits of OP_m", "module": "btclib.psbt.psbt_size",
      "edit": lambda ctx: M.sub_expr(ctx, "btclib.psbt.psbt_size._solution_sizes", lambda n: isinstance(n, ast.BinOp) and isinstance(n.op, ast.Sub) and "payload[0]" in norm(n.left), "payload[0] & 0x0F")},
 
